@@ -29,7 +29,7 @@ class SchedAbort(BaseException):
 
 
 class _T(object):
-    __slots__ = ('tid', 'target', 'sem', 'thread', 'done', 'kind', 'info', 'enabled', 'exc', 'started')
+    __slots__ = ('tid', 'target', 'sem', 'thread', 'done', 'kind', 'info', 'enabled', 'exc', 'started', 'since')
 
     def __init__(self, tid, target):
         self.tid = tid
@@ -42,6 +42,7 @@ class _T(object):
         self.enabled = None      # None = always enabled
         self.exc = None
         self.started = False
+        self.since = 0           # step number at which the pending operation was asked for (FIFO order of waiters)
 
 
 class Scheduler(object):
@@ -132,6 +133,7 @@ class Scheduler(object):
         """Called by the baton holder before it performs the operation `kind`."""
         t = self.threads[self.cur]
         t.kind, t.info, t.enabled = kind, info, enabled
+        t.since = self.steps
         self._dispatch(t, finishing=False)
         t.kind, t.info, t.enabled = 'run', None, None
 
@@ -241,6 +243,9 @@ class SchedLock(object):
         self.depth = 0
         self.reentrant = reentrant
         self.idx = sched._lock_count = getattr(sched, '_lock_count', -1) + 1
+        if not hasattr(sched, '_locks'):
+            sched._locks = []
+        sched._locks.append(self)       # (read by HandOffPolicy: who holds a lock right now)
 
     def _name(self, what):
         return what if self.idx == 0 else '%s#%d' % (what, self.idx)
@@ -448,6 +453,57 @@ class RandomPolicy(object):
         if prev is not None and self.rng.random() >= self.p:
             return prev
         return enabled[self.rng.randrange(len(enabled))]
+
+
+class HandOffPolicy(object):
+    """What a lock does for its waiters at a release, as a deterministic schedule (the choices are recorded, a replay
+    follows them with `ReplayPolicy`).
+
+    mode 'fair'    - a FIFO (ticket) lock: while some thread holds a lock, every other thread that can move runs first
+                     (lowest id after `first`), until it is queued on the lock or asleep; whenever the lock is free and
+                     threads are queued on it, the one that has waited longest gets it - in particular NOT the thread
+                     that has just released it and asks for it again at once.
+    mode 'preempt' - no queueing in advance: the running thread keeps running, but right after it has released a lock
+                     the scheduler switches to another thread that can move (round robin from `first`) - the
+                     preemption between `release()` and whatever the releasing thread does next.
+    `skip` hand-offs are passed over before the first one is taken (0: every release hands off)."""
+
+    def __init__(self, mode='fair', first=0, skip=0):
+        self.mode = mode
+        self.first = first
+        self.skip = skip
+        self.n = 0
+
+    def _rot(self, tids):
+        return sorted(tids, key=lambda t: ((t - self.first) % 64, t))
+
+    def choose(self, i, enabled, prev, sched):
+        self.n += 1
+        if i == 0 and prev is None:
+            return self._rot(enabled)[0]
+        owners = set(l.owner for l in getattr(sched, '_locks', []) if l.owner is not None and l.owner != 'main')
+        if self.mode == 'fair':
+            # threads that are neither holding a lock nor queued on one: let them arrive first
+            free = [t for t in enabled if t not in owners and sched.threads[t].kind != 'acq' and t != prev]
+            if owners and prev in owners and free:
+                return self._rot(free)[0]
+            queued = [t for t in enabled if sched.threads[t].kind == 'acq']
+            if queued and (prev is None or sched.threads[prev].kind == 'acq'):
+                if self.skip > 0 and prev in queued and len(queued) > 1:
+                    self.skip -= 1
+                    return prev
+                return min(queued, key=lambda t: (sched.threads[t].since, t))
+            return prev if prev is not None else self._rot(enabled)[0]
+        # 'preempt': switch right after a release
+        if prev is not None and sched.log and sched.log[-1][0] == prev and \
+                str(sched.log[-1][1][0]).split('#')[0] == 'rel':
+            others = [t for t in enabled if t != prev]
+            if others:
+                if self.skip > 0:
+                    self.skip -= 1
+                    return prev
+                return self._rot(others)[0]
+        return prev if prev is not None else self._rot(enabled)[0]
 
 
 def rle(choices):
